@@ -480,8 +480,8 @@ static int addLeaf(KSI_TreeBuilder *builder, KSI_DataHash *hsh, KSI_MetaData *me
 
 	{
 		unsigned short actualInputHeight = 0;
-		/* Without a configured maximum the tree is still limited by the largest valid level. */
-		int maxTreeLevel = (builder->maxTreeLevel > 0) ? builder->maxTreeLevel : 0xff;
+		/* Without a configured maximum, or with one beyond it, the tree is still limited by the largest valid level. */
+		int maxTreeLevel = (builder->maxTreeLevel > 0 && builder->maxTreeLevel < 0xff) ? builder->maxTreeLevel : 0xff;
 
 		/* Let's not waste time and effort. */
 		if (level > maxTreeLevel) {
